@@ -316,6 +316,12 @@ impl Server {
         );
     }
 
+    /// Read-only view of this server's statistics recorder (verification hook)
+    #[cfg(roughenough_verif)]
+    pub fn stats_recorder(&self) -> &dyn ServerStats {
+        self.stats_recorder.as_ref()
+    }
+
     pub fn thread_name(&self) -> &str {
         &self.thread_name
     }
